@@ -339,7 +339,7 @@ let run_case id kind cap ordered overhead ops =
       let pos = ref idx in
       let continue = ref true in
       while !continue do
-        if !pos <= window then stream_to b ov pre;
+        if !pos <= window && b.st.r_mem.m_addresses <> [] then stream_to b ov pre;
         if !pos >= !flushed then continue := false
         else if !pos < window then begin deliver b (entries_from !pos (!pos + 1)); incr pos end
         else begin deliver b (entries_from !pos !flushed); pos := !flushed end
